@@ -5,20 +5,6 @@ Local Open Scope string_scope.
 Local Open Scope list_scope.
 
 (* ---------------------------------------------------------------- correspondence *)
-Fixpoint remove_first {A} (e : A -> A -> bool) (x : A) (l : list A) : option (list A) :=
-  match l with
-  | [] => None
-  | y :: r => if e x y then Some r else match remove_first e x r with Some r' => Some (y :: r') | None => None end
-  end.
-Fixpoint perm_eqb {A} (e : A -> A -> bool) (a b : list A) : bool :=
-  match a with
-  | [] => match b with [] => true | _ => false end
-  | x :: r => match remove_first e x b with Some b' => perm_eqb e r b' | None => false end
-  end.
-
-Definition file_has_compose (f : vfile) : bool :=
-  existsb (fun r => match r with YBCompose _ :: _ => true | _ => false end) (vf_builders f).
-
 (* case: schemas, rule files, language, builders the real FromAST derived, what the real ApplyTo returned *)
 Definition vcase := (schemas * list vfile * string * list builder * res (list builder))%type.
 Definition c_ss (c : vcase) := let '(ss, _, _, _, _) := c in ss.
@@ -27,15 +13,9 @@ Definition c_lang (c : vcase) := let '(_, _, l, _, _) := c in l.
 Definition c_before (c : vcase) := let '(_, _, _, b, _) := c in b.
 Definition c_after (c : vcase) := let '(_, _, _, _, a) := c in a.
 
-(* ComposeBuilders ranges over a Go map: the order in which the composed groups are appended is
-   not determined; with a compose rule present the builder lists are compared as multisets *)
+(* strict: cog's output must be the model's output *)
 Definition ven_mismatch (c : vcase) : bool :=
-  let cmp := if existsb file_has_compose (c_files c) then perm_eqb builder_eqb else builders_eqb in
-  negb (res_eqb cmp (apply_to (c_ss c) (c_files c) (c_lang c) (c_before c)) (c_after c)).
-Definition ven_mismatch_unshared (c : vcase) : bool :=
-  let cmp := if existsb file_has_compose (c_files c) then perm_eqb builder_eqb else builders_eqb in
-  negb (res_eqb cmp (apply_to_unshared (c_ss c) (c_files c) (c_lang c) (c_before c)) (c_after c)).
-Definition ven_interference (c : vcase) : bool := interference (c_ss c) (c_files c) (c_lang c) (c_before c).
+  negb (res_eqb builders_eqb (apply_to (c_ss c) (c_files c) (c_lang c) (c_before c)) (c_after c)).
 
 (* ---------------------------------------------------------------- WT: a builder is well-typed *)
 (* types compared up to the default recorded on the type itself (struct_fields_as_arguments
@@ -140,7 +120,6 @@ Definition files_wf (fs : list vfile) : bool :=
   forallb (fun f => forallb ybrule_wf (vf_builders f) && forallb yorule_wf (vf_options f)) fs.
 
 (* ---------------------------------------------------------------- frame *)
-Definition header_of (b : builder) : lbuilder := label_builder [] (mkBuilder (b_for b) (b_pkg b) (b_name b) [] (mkConstructor [] []) [] []).
 Definition brule_selector (r : brule) : bselector :=
   match r with
   | BROmit s | BRRename s _ | BRMergeInto s _ _ _ _ | BRCompose s _ | BRProperties s _ | BRDuplicate s _ _
@@ -152,9 +131,9 @@ Definition rules_in_order (lrs : list language_rules) (lang : string) : list bru
 (* selectors read For, Package, Name of the builder and the name of the option: a builder that
    no builder rule selects keeps them, so "never selected" is a property of the input builder *)
 Definition builder_never_selected (ss : schemas) (brs : list brule) (b : builder) : bool :=
-  forallb (fun r => negb (sel_builder ss (brule_selector r) (header_of b))) brs.
+  forallb (fun r => negb (sel_builder ss (brule_selector r) b)) brs.
 Definition option_never_selected (ors : list orule) (b : builder) (o : boption) : bool :=
-  forallb (fun r => negb (sel_option (or_sel r) (header_of b) (label_option [] o))) ors.
+  forallb (fun r => negb (sel_option (or_sel r) b o)) ors.
 
 Definition same_but_options (a b : builder) : bool :=
   object_eqb (b_for a) (b_for b) && seqb (b_pkg a) (b_pkg b) && seqb (b_name a) (b_name b)
@@ -181,15 +160,12 @@ Definition single_rule (lrs : list language_rules) (lang : string) : option (bru
   | ([], [r]) => Some (inr r)
   | _ => None
   end.
-Definition sel_b (ss : schemas) (s : bselector) (b : builder) : bool := sel_builder ss s (header_of b).
-Definition sel_o (s : oselector) (b : builder) (o : boption) : bool := sel_option s (header_of b) (label_option [] o).
-Definition has_opts (b : builder) : bool := match b_options b with [] => false | _ => true end.
-Definition with_name (b : builder) (n : string) : builder :=
-  mkBuilder (b_for b) (b_pkg b) n (b_props b) (b_ctor b) (b_options b) (b_factories b).
-Definition with_options (b : builder) (os : list boption) : builder :=
-  mkBuilder (b_for b) (b_pkg b) (b_name b) (b_props b) (b_ctor b) os (b_factories b).
-Definition with_oname (o : boption) (n : string) : boption :=
-  mkOption n (op_comments o) (op_args o) (op_assignments o) (op_default o).
+Definition sel_b := sel_builder.
+Definition sel_o := sel_option.
+Definition has_opts := has_options.
+Definition with_name := set_name.
+Definition with_options := set_options.
+Definition with_oname := set_oname.
 
 (* the builder of `after` that continues builder b of `before` (option rules keep For, Package, Name) *)
 Definition continuation (after : list builder) (b : builder) : option builder :=
@@ -406,36 +382,35 @@ Definition oaction_kind (a : oaction) : string :=
   | ADuplicate _ => "duplicate" | AAddAssignment _ => "add_assignment" | AAddComments _ => "add_comments"
   end.
 
-(* the states after every rule application, as the model computes them: (rule kind, builders, write reached a sharer) *)
-Definition tstep := (string * list lbuilder * bool)%type.
-Fixpoint trace_builder_rules (ss : schemas) (t : nat) (rs : list brule) (bs : list lbuilder) (acc : list tstep) : list tstep * option (list lbuilder) :=
+(* the states after every rule application, as the model computes them: (rule kind, builders) *)
+Definition tstep := (string * list builder)%type.
+Fixpoint trace_builder_rules (ss : schemas) (rs : list brule) (bs : list builder) (acc : list tstep) : list tstep * option (list builder) :=
   match rs with
   | [] => (acc, Some bs)
-  | r :: rest => match apply_builder_rule ss t r bs with
-                 | Ok bs' => trace_builder_rules ss (S t) rest bs' (acc ++ [(String.append "builder:" (brule_kind r), bs', false)])
+  | r :: rest => match apply_builder_rule ss r bs with
+                 | Ok bs' => trace_builder_rules ss rest bs' (acc ++ [(String.append "builder:" (brule_kind r), bs')])
                  | _ => (acc, None)
                  end
   end.
-Fixpoint trace_option_rules (ss : schemas) (t : nat) (rs : list orule) (bs : list lbuilder) (acc : list tstep) : list tstep * option (list lbuilder) :=
+Fixpoint trace_option_rules (ss : schemas) (rs : list orule) (bs : list builder) (acc : list tstep) : list tstep * option (list builder) :=
   match rs with
   | [] => (acc, Some (filter has_options bs))
-  | r :: rest => match apply_option_rule ss t r bs false with
-                 | Ok (bs', fl) => trace_option_rules ss (S t) rest bs' (acc ++ [(String.append "option:" (oaction_kind (or_action r)), bs', fl)])
+  | r :: rest => match apply_option_rule ss r bs with
+                 | Ok bs' => trace_option_rules ss rest bs' (acc ++ [(String.append "option:" (oaction_kind (or_action r)), bs')])
                  | _ => (acc, None)
                  end
   end.
-Definition trace_language (ss : schemas) (t : nat) (lrs : list language_rules) (l : string) (bs : list lbuilder) (acc : list tstep)
-  : list tstep * option (list lbuilder) :=
-  let brs := builder_rules_for l lrs in
-  match trace_builder_rules ss t brs bs acc with
-  | (acc1, Some bs1) => trace_option_rules ss (t + List.length brs) (option_rules_for l lrs) bs1 acc1
+Definition trace_language (ss : schemas) (lrs : list language_rules) (l : string) (bs : list builder) (acc : list tstep)
+  : list tstep * option (list builder) :=
+  match trace_builder_rules ss (builder_rules_for l lrs) bs acc with
+  | (acc1, Some bs1) => trace_option_rules ss (option_rules_for l lrs) bs1 acc1
   | (acc1, None) => (acc1, None)
   end.
 Definition trace (ss : schemas) (files : list vfile) (lang : string) (bs : list builder) : list tstep :=
   match rewriter_from files with
   | Ok lrs =>
-      match trace_language ss 1 lrs all_languages (label_builders 0 bs) [] with
-      | (acc, Some bs1) => fst (trace_language ss (1 + rules_count lrs all_languages) lrs lang bs1 acc)
+      match trace_language ss lrs all_languages bs [] with
+      | (acc, Some bs1) => fst (trace_language ss lrs lang bs1 acc)
       | (acc, None) => acc
       end
   | _ => []
@@ -456,18 +431,18 @@ Definition builders_reason (ss : schemas) (bs : list builder) : nat :=
 
 Definition first_step {A} (bad : A -> bool) (l : list A) : option A := find bad l.
 
-(* code = 2 * reason + (1 if a write reached a sharer in that step) ; plus the rule kind *)
+(* code = 2 * reason ; plus the rule kind *)
 Definition wt_culprit (c : vcase) : option (string * nat) :=
-  match first_step (fun s : tstep => negb (WTs (c_ss c) (erase_builders (snd (fst s))))) (trace (c_ss c) (c_files c) (c_lang c) (c_before c)) with
-  | Some (k, bs, fl) => Some (k, 2 * builders_reason (c_ss c) (erase_builders bs) + (if fl then 1 else 0))
+  match first_step (fun s : tstep => negb (WTs (c_ss c) (snd s))) (trace (c_ss c) (c_files c) (c_lang c) (c_before c)) with
+  | Some (k, bs) => Some (k, 2 * builders_reason (c_ss c) bs)
   | None => None
   end.
 Definition frame_culprit (c : vcase) : option (string * nat) :=
   match rewriter_from (c_files c) with
   | Ok lrs =>
-      match first_step (fun s : tstep => negb (frame_ok (c_ss c) lrs (c_lang c) (c_before c) (erase_builders (snd (fst s)))))
+      match first_step (fun s : tstep => negb (frame_ok (c_ss c) lrs (c_lang c) (c_before c) (snd s)))
                        (trace (c_ss c) (c_files c) (c_lang c) (c_before c)) with
-      | Some (k, _, fl) => Some (k, if fl then 1 else 0)
+      | Some (k, _) => Some (k, 0)
       | None => None
       end
   | _ => None
@@ -487,45 +462,41 @@ Definition culprit_code (x : option (string * nat)) : nat :=
 Definition codes (f : vcase -> bool) (g : vcase -> option (string * nat)) (cs : list vcase) : list nat :=
   map (fun c => culprit_code (g c)) (filter f cs).
 
-(* ---------------------------------------------------------------- rules that cannot break well-typedness, whatever their parameters *)
+(* ---------------------------------------------------------------- rules that cannot break well-typedness, whatever their
+   (well-formed) parameters *)
 Definition wt_safe_brule (r : brule) : bool :=
   match r with
   | BROmit _ | BRRename _ _ | BRProperties _ _ | BRDuplicate _ _ _ | BRInitialize _ _ | BRAddFactory _ _ => true
+  | BRAddOption _ o => voption_wf o          (* the added option only uses the arguments it declares *)
   | _ => false
   end.
 Definition wt_safe_action (a : oaction) : bool :=
-  match a with AOmit | ARename _ | AAddComments _ | ADuplicate _ => true | _ => false end.
+  match a with
+  | AOmit | ARename _ | AAddComments _ | ADuplicate _ => true
+  | AAddAssignment va => match vvalue_args (va_value va) with [] => true | _ => false end   (* constants and envelopes of constants *)
+  | _ => false
+  end.
 Definition wt_safe_rules (lrs : list language_rules) : bool :=
   forallb (fun lr => forallb wt_safe_brule (lr_builder_rules lr) && forallb (fun r => wt_safe_action (or_action r)) (lr_option_rules lr)) lrs.
 
-(* statements about labelled builders *)
-Definition lWT (ss : schemas) (b : lbuilder) : Prop := WT ss (erase_builder b) = true.
-(* every builder describes the object of the schemas it names *)
-Definition lconsistent (ss : schemas) (bs : list lbuilder) : Prop :=
-  forall b, In b bs -> locate_object ss (o_selfpkg (lb_for b)) (o_selfname (lb_for b)) = Some (lb_for b).
-Definition lsame_but_options (a b : lbuilder) : Prop :=
-  lb_for a = lb_for b /\ lb_pkg a = lb_pkg b /\ lb_name a = lb_name b /\ lb_props a = lb_props b /\
-  lb_ctor a = lb_ctor b /\ lb_factories a = lb_factories b.
+(* every builder describes the object of the schemas it names (Leibniz version of `consistent`) *)
+Definition consistent_with (ss : schemas) (bs : list builder) : Prop :=
+  forall b, In b bs -> locate_object ss (o_selfpkg (b_for b)) (o_selfname (b_for b)) = Some (b_for b).
+Definition same_header (a b : builder) : Prop :=
+  b_for a = b_for b /\ b_pkg a = b_pkg b /\ b_name a = b_name b /\ b_props a = b_props b /\
+  b_ctor a = b_ctor b /\ b_factories a = b_factories b.
 
 (* ---------------------------------------------------------------- everything about one case in one number
-   1 mismatch (with the model as the code runs AND with the model on unshared data)  2 interference  4 in claim  8 WT fails  16 frame fails  32 contract fails
+   1 mismatch (cog's output is not the model's)  4 in claim  8 WT fails  16 frame fails  32 contract fails
    64 single-rule run  128 something is selected and some builder has two or more options
-   256 the rule files load  512 the unshared model differs from the implementation
-   1024 duplicate as last rule: copy differs  2048 compose as last builder rule: wrong discriminator *)
+   256 the rule files load  1024 duplicate as last rule: copy differs  2048 compose as last builder rule: wrong discriminator *)
 Definition bit (b : bool) (n : nat) : nat := if b then n else 0.
 Definition ven_code (c : vcase) : nat :=
-  let perm := existsb file_has_compose (c_files c) in
-  let cmp := if perm then perm_eqb builder_eqb else builders_eqb in
-  let run := apply_to_l true (c_ss c) (c_files c) (c_lang c) (c_before c) in
-  let out := match run with Ok o => Ok (erase_builders (fst o)) | Err e => Err e | Panic w => Panic w | OutOfFuel => OutOfFuel end in
-  let itf := match run with Ok o => snd o | _ => false end in
-  (* the implementation must agree with the code as it runs (shared cells) or, where a write reached a
-     sharer, with the same rules on unshared data (what a repaired implementation computes) *)
-  bit (negb (res_eqb cmp out (c_after c)) && (negb itf || ven_mismatch_unshared c)) 1 + bit itf 2 + bit (in_claim c) 4 + bit (pf_wt c) 8 + bit (pf_frame c) 16 +
+  bit (ven_mismatch c) 1 + bit (in_claim c) 4 + bit (pf_wt c) 8 + bit (pf_frame c) 16 +
   bit (pf_contract c) 32 + bit (ven_single c) 64 +
   bit (ven_selects c && existsb (fun b => Nat.leb 2 (List.length (b_options b))) (c_before c)) 128 +
   bit (match rewriter_from (c_files c) with Ok _ => true | _ => false end) 256 +
-  bit (itf && ven_mismatch_unshared c) 512 + bit (pf_last_duplicate c) 1024 + bit (pf_last_compose c) 2048.
+  bit (pf_last_duplicate c) 1024 + bit (pf_last_compose c) 2048.
 Definition ven_codes (cs : list vcase) : list nat := map ven_code cs.
 
 (* ---------------------------------------------------------------- the rule registries the model and the harness know
@@ -539,9 +510,24 @@ Definition model_option_members : list string :=
 
 (* the shape of an option as FromAST derives it: one argument, one assignment of that argument,
    no envelope, no index, to a path ending in the argument's type *)
-Definition derived_shape (o : loption) (a : argument) (first : lassignment) : Prop :=
-  lo_args o = [a] /\ lo_assignments o = [first] /\ (exists l, la_arg first = Some (l, a)) /\ la_env first = None /\
-  la_constraints first = [] /\ path_args (la_path first) = [] /\
-  exists it, last_item (la_path first) = Some it /\ pi_type it = a_type a /\ pi_typehint it = None.
-Definition lopt_wt (ss : schemas) (root : ty) (o : loption) : bool :=
-  forallb (fun a => assignment_ok ss root (lo_args o) (erase_asg a)) (lo_assignments o).
+Definition derived_shape (o : boption) (a : argument) (first : assignment) : Prop :=
+  op_args o = [a] /\ op_assignments o = [first] /\ as_arg first = Some a /\ as_env first = None /\
+  (forall c, In c (as_constraints first) -> ac_arg c = a) /\ path_args (as_path first) = [] /\
+  exists it, last_item (as_path first) = Some it /\ pi_type it = a_type a /\ pi_typehint it = None.
+Definition opt_wt (ss : schemas) (root : ty) (o : boption) : bool :=
+  forallb (assignment_ok ss root (op_args o)) (op_assignments o).
+
+(* ---------------------------------------------------------------- paths *)
+(* the type the item after `it` is looked up in *)
+Definition next_type (it : pathitem) : ty := match pi_typehint it with Some h => h | None => pi_type it end.
+Definition end_type (cur : ty) (p : path) : ty := match last_item p with Some it => next_type it | None => cur end.
+(* what MergeInto does not check (finding C17-merge-compose-unchecked-target): the path it is given
+   leads to the object the source builder builds, and the source's constructor constants use no argument *)
+Definition merge_target_checked (ss : schemas) (cur : list builder) (dest : builder) (src under : string) : Prop :=
+  forall source root it,
+    locate_by_name cur (o_selfpkg (b_for dest)) src = Some source -> make_path cur dest under = Ok root -> last_item root = Some it ->
+    resolve_total ss (pi_type it) = resolve_total ss (o_type (b_for source)) /\
+    forall a, In a (ct_assignments (b_ctor source)) -> dyn_is_nil (as_const a) = false -> assignment_args a = [].
+Definition merged_option (root : path) (ren : list (string * string)) (o : boption) : boption :=
+  mkOption (match alist_find ren (op_name o) with Some n => n | None => op_name o end)
+           (op_comments o) (op_args o) (map (prefix_path root) (op_assignments o)) (op_default o).
